@@ -85,7 +85,7 @@ class Gen:
             return [pad + 'x%d = %d' % (uid, uid)]
         if r < 0.5:
             # function
-            name = 'f%d' % uid
+            name = ('f\xfc%d' if uid % 7 == 3 else 'f%d') % uid       # non-ASCII identifiers are identifiers
             if visible and rng.random() < 0.12:
                 # a redefinition: the name of an earlier function of the same scope is bound again (the later
                 # definition is the one that exists after import; static collection must report that one, once)
@@ -113,7 +113,7 @@ class Gen:
                 lines.append(pad + '    pass')
             return lines
         if r < 0.65:
-            name = 'K%d' % uid
+            name = ('K\xe9%d' if uid % 5 == 2 else 'K%d') % uid
             lines = [pad + 'class %s(object):' % name]
             doc, nb, prompts = gen_doc(rng, uid, indent + 4)
             if doc is not None:
